@@ -45,7 +45,7 @@ from corr import logix_gen as lg
 # recording layer (installed once per process)
 # --------------------------------------------------------------------------------------------------
 REC = {"on": False, "events": [], "lock": threading.Lock(), "ctr": itertools.count(), "yield": True,
-       "installed": False, "fuzz": 0.0, "nap": 0.001}
+       "installed": False, "fuzz": 0.0, "nap": 0.001, "fuzz_store": 0.0}
 TL = threading.local()
 
 
@@ -185,19 +185,37 @@ def install_fuzzer(funcs):
             return mon.DISABLE
         p = REC["fuzz"]
         if p and REC["on"]:
+            # the line just left by this thread stored into an attribute / item / global (the only way
+            # Python code changes state another thread could see): a preemption right here is the interesting one
+            prev = getattr(TL, "prev", None)
+            if prev is None:
+                prev = TL.prev = {}
+            if (code, prev.get(code)) in stores:      # previous line of this function, in this thread
+                p = max(p, REC["fuzz_store"])
+            prev[code] = line
             r = rnd()
             if r < p:                   # half the time just hand the GIL over, half the time stay away for a while
                 time.sleep(0 if r < p / 2 else REC["nap"])
 
     boring = {}
+    stores = set()
     mon.register_callback(tool, mon.events.LINE, on_line)
     seen = set()
+    import dis
+    MUTATORS = {"append", "pop", "setdefault", "update", "insert", "extend", "remove", "clear", "popitem"}
 
     def add(code):
         if code in seen:
             return
         seen.add(code)
         mon.set_local_events(tool, code, mon.events.LINE)
+        line = None
+        for ins in dis.get_instructions(code):
+            if ins.starts_line is not None:
+                line = ins.starts_line
+            if ins.opname in ("STORE_ATTR", "STORE_SUBSCR", "STORE_GLOBAL", "DELETE_ATTR", "DELETE_SUBSCR") or (
+                    ins.opname in ("LOAD_ATTR", "LOAD_METHOD") and ins.argval in MUTATORS):
+                stores.add((code, line))
         for c in code.co_consts:
             if hasattr(c, "co_code"):
                 add(c)
@@ -436,6 +454,7 @@ class C09(Suite):
         return {"budget": rng.choice([488, 488, 488, 40, 12]), "tags": tags, "sessions": sessions,
                 "si": rng.choice([1e-6, 1e-6, 1e-5, 1e-4, 5e-3]), "yield": rng.random() < 0.8,
                 "fuzz": rng.choice([0.0, 0.005, 0.01, 0.02]), "nap": rng.choice([0.003, 0.01]),
+                "fuzz_store": rng.choice([0.0, 0.05, 0.15]),
                 "seed": rng.randrange(1 << 30)}
 
     def pair_cases(self):
@@ -464,12 +483,13 @@ class C09(Suite):
                     sess.append({"client": "raw", "chaos": None,
                                  "frames": [shapes(sid)[sh](k) for k in range(5)]})
                 yield {"budget": 488, "tags": [dict(tag)], "sessions": sess, "si": 1e-6, "yield": True,
-                       "fuzz": [0.0, 0.01, 0.02][(a + b) % 3], "nap": 0.005, "seed": a * n + b}
+                       "fuzz": [0.0, 0.01, 0.02][(a + b) % 3], "nap": 0.005, "fuzz_store": [0.1, 0.0, 0.05][(a * 2 + b) % 3],
+                       "seed": a * n + b}
 
     def cases(self, tier, rng):
         for c in self.pair_cases():
             yield c
-        n = 34 if tier == "quick" else 360
+        n = 34 if tier == "quick" else 320
         for _ in range(n):
             yield self.rand_case(rng, tier)
 
@@ -655,6 +675,7 @@ class C09(Suite):
             REC["yield"] = bool(case["yield"])
             REC["fuzz"] = float(case.get("fuzz", 0.0))
             REC["nap"] = float(case.get("nap", 0.001))
+            REC["fuzz_store"] = float(case.get("fuzz_store", 0.0))
             sys.setswitchinterval(case["si"])
             REC["on"] = True
             outs, hung = self.run_clients(case, port, encoded)
@@ -1070,7 +1091,7 @@ class C09(Suite):
         self._stats["requests"] = self._stats.get("requests", 0) + reqs
         return (f"sessions={n} bundles={'y' if any(fr['op'] == 'mu' for s in case['sessions'] for fr in s['frames']) else 'n'}"
                 f" chaos={'y' if any(s.get('chaos') for s in case['sessions']) else 'n'}"
-                f" si={case['si']:g} fuzz={case.get('fuzz', 0):g} access-order-switches={swb}")
+                f" si={case['si']:g} fuzz={case.get('fuzz', 0):g}/{case.get('fuzz_store', 0):g} access-order-switches={swb}")
 
     def shrink(self, case):
         ss = case["sessions"]
